@@ -344,7 +344,8 @@ fn hostile(r: &mut Rng, _i: u64) -> Vec<String> {
     let rcq = *r.pick(&[1u64, 2, 8]);
     let rbuf = *r.pick(&[4u64, 16, 64]);
     let mut l = vec!["mode hostile".to_string()];
-    l.push(format!("cfg B chunk={chunk} buf={buf} cq={cq} ports={ports} maxdata=64"));
+    let maxports = *r.pick(&[1u64, 2, 4]);
+    l.push(format!("cfg B chunk={chunk} buf={buf} cq={cq} ports={ports} maxdata=64 maxports={maxports}"));
     l.push("startb".into());
     // handshake, possibly preceded by frames that must be ignored
     if r.chance(1, 4) {
@@ -471,7 +472,19 @@ fn hostile(r: &mut Rng, _i: u64) -> Vec<String> {
                 // one violating (or terminating) frame
                 terminal = true;
                 let name = open.first().map(|(n, _)| n.clone());
-                match r.below(22) {
+                match r.below(24) {
+                    22 | 23 => {
+                        // a port batch that never ends: more ports than the receiver accepts per message,
+                        // one port per frame, the application is receiving (so credits keep flowing back)
+                        if let Some(n) = &name {
+                            l.push(format!("recvany rb{k} B {n}"));
+                            l.push("settle".into());
+                            for j in 0..(maxports + 3) {
+                                l.push(format!("injectm A portData ${n} {} 0 1 {} none", (j == 0) as u8, 40000 + 10 * k as u64 + j));
+                                l.push("settle".into());
+                            }
+                        }
+                    }
                     0 => l.push("inject A 63".into()),
                     1 => l.push("inject A -".into()),
                     2 => l.push("inject A 0701".into()),
@@ -979,8 +992,9 @@ fn link_close(r: &mut Rng, _i: u64) -> Vec<String> {
 /// that cut points inside the handshake are covered as well.  Workload 99 is the idle connection.
 pub fn fault_workload(r: &mut Rng, w: u64, fault: Option<(&str, u64, &str)>) -> Vec<String> {
     let mut l = vec!["mode fault".to_string()];
-    let ta = *r.pick(&[1000u64, 1000, 2000]);
-    let tb = *r.pick(&[1000u64, 1500]);
+    // timeouts differ per endpoint, also by more than a factor of two (the ping interval must follow
+    // the *peer's* timeout)
+    let (ta, tb) = *r.pick(&[(1000u64, 1000u64), (2000, 1500), (10000, 400), (400, 10000), (3000, 1000), (1000, 2500)]);
     l.push(format!("cfg A chunk=8 buf=16 maxdata=64 timeout={ta} sq=2 tq=2 rq=2"));
     l.push(format!("cfg B chunk=8 buf=16 maxdata=64 timeout={tb} sq=2 tq=2 rq=2"));
     if let Some((wire, at, kind)) = fault {
